@@ -170,3 +170,26 @@ func lessValue(a, b reflect.Value) bool {
 	}
 	return false
 }
+
+// GoCall is the replacement of `go f(a, b)` for callees that are not a
+// zero-argument function literal: callee and arguments have been evaluated by
+// the caller (as the go statement does), the call happens in the new task.
+func GoCall(f interface{}, args ...interface{}) {
+	fv := reflect.ValueOf(f)
+	ft := fv.Type()
+	in := make([]reflect.Value, len(args))
+	for i, a := range args {
+		if a == nil {
+			var pt reflect.Type
+			if ft.IsVariadic() && i >= ft.NumIn()-1 {
+				pt = ft.In(ft.NumIn() - 1).Elem()
+			} else {
+				pt = ft.In(i)
+			}
+			in[i] = reflect.Zero(pt)
+		} else {
+			in[i] = reflect.ValueOf(a)
+		}
+	}
+	Go(func() { fv.Call(in) })
+}
